@@ -1,7 +1,841 @@
 import KalignModel.Model.Progressive
 import KalignModel.Lemmas.Weave
-/-! helper lemmas for C01 / C10 (to be filled) -/
+/-! helper lemmas for C01 / C10 -/
 namespace Kalign
 variable {α : Type}
+
+/-! ## gap vectors, `consA`/`consB`, side swap -/
+
+theorem length_updateGaps (g ng : List Nat) : (updateGaps g ng).length = g.length := by
+  induction g generalizing ng with
+  | nil => rfl
+  | cons x xs ih => simp [updateGaps, ih]
+
+@[simp] theorem consA_nil : consA [] = 0 := rfl
+@[simp] theorem consB_nil : consB [] = 0 := rfl
+@[simp] theorem consA_both (cs : List Col) : consA (.both :: cs) = consA cs + 1 := by simp [consA]
+@[simp] theorem consA_gapB (cs : List Col) : consA (.gapB :: cs) = consA cs + 1 := by simp [consA]
+@[simp] theorem consA_gapA (cs : List Col) : consA (.gapA :: cs) = consA cs := by simp [consA]
+@[simp] theorem consA_skip (cs : List Col) : consA (.skip :: cs) = consA cs := by simp [consA]
+@[simp] theorem consB_both (cs : List Col) : consB (.both :: cs) = consB cs + 1 := by simp [consB]
+@[simp] theorem consB_gapA (cs : List Col) : consB (.gapA :: cs) = consB cs + 1 := by simp [consB]
+@[simp] theorem consB_gapB (cs : List Col) : consB (.gapB :: cs) = consB cs := by simp [consB]
+@[simp] theorem consB_skip (cs : List Col) : consB (.skip :: cs) = consB cs := by simp [consB]
+
+theorem consA_append (a b : List Col) : consA (a ++ b) = consA a + consA b := by
+  simp [consA, List.filter_append]
+theorem consB_append (a b : List Col) : consB (a ++ b) = consB a + consB b := by
+  simp [consB, List.filter_append]
+
+/-- exchange the two sides -/
+def Col.swap : Col → Col
+  | .both => .both | .gapA => .gapB | .gapB => .gapA | .skip => .skip
+
+theorem consB_eq_swap (cs : List Col) : consB cs = consA (cs.map Col.swap) := by
+  induction cs with
+  | nil => rfl
+  | cons c cs ih => cases c <;> simp [Col.swap, ih]
+
+theorem gapVecB_eq_swap (cs : List Col) : gapVecB cs = gapVecA (cs.map Col.swap) := by
+  induction cs with
+  | nil => rfl
+  | cons c cs ih => cases c <;> simp [Col.swap, gapVecA, gapVecB, ih]
+
+theorem weaveB_eq_swap (cs : List Col) (r : List (Option α)) :
+    weaveB cs r = weaveA (cs.map Col.swap) r := by
+  induction cs generalizing r with
+  | nil => rfl
+  | cons c cs ih => cases c <;> cases r <;> simp [Col.swap, weaveA, weaveB, ih]
+
+theorem skip_not_mem_swap (cs : List Col) (h : Col.skip ∉ cs) : Col.skip ∉ cs.map Col.swap := by
+  induction cs with
+  | nil => simp
+  | cons c cs ih => cases c <;> simp_all [Col.swap]
+
+theorem length_bump (l : List Nat) (h : l ≠ []) : (bump l).length = l.length := by
+  cases l with
+  | nil => exact absurd rfl h
+  | cons a l => rfl
+
+theorem length_gapVecA (cs : List Col) : (gapVecA cs).length = consA cs + 1 := by
+  induction cs with
+  | nil => rfl
+  | cons c cs ih =>
+    cases c
+    · simp [gapVecA, ih]
+    · have hne : gapVecA cs ≠ [] := by intro h; rw [h] at ih; simp at ih
+      simp [gapVecA, length_bump _ hne, ih]
+    · simp [gapVecA, ih]
+    · simp [gapVecA, ih]
+
+theorem length_gapVecB (cs : List Col) : (gapVecB cs).length = consB cs + 1 := by
+  rw [gapVecB_eq_swap, consB_eq_swap, length_gapVecA]
+
+theorem insertCols_bump (r : List (Option α)) (g : List Nat) (h : g ≠ []) :
+    insertCols r (bump g) = none :: insertCols r g := by
+  cases g with
+  | nil => exact absurd rfl h
+  | cons n ns => cases r <;> simp [bump, insertCols, List.replicate_succ]
+
+theorem weaveA_eq_insertCols (cs : List Col) (r : List (Option α)) (h : r.length = consA cs) :
+    weaveA cs r = insertCols r (gapVecA cs) := by
+  induction cs generalizing r with
+  | nil =>
+    have : r = [] := by simpa using h
+    subst this; simp [weaveA, gapVecA, insertCols]
+  | cons c cs ih =>
+    cases c
+    · match r, h with
+      | x :: r', h =>
+        simp only [weaveA, gapVecA, insertCols, List.replicate_zero, List.nil_append]
+        rw [ih r' (by simpa using h)]
+    · have hne : gapVecA cs ≠ [] := by
+        intro h'; have := length_gapVecA cs; rw [h'] at this; simp at this
+      simp only [weaveA, gapVecA]
+      rw [insertCols_bump _ _ hne, ih r (by simpa using h)]
+    · match r, h with
+      | x :: r', h =>
+        simp only [weaveA, gapVecA, insertCols, List.replicate_zero, List.nil_append]
+        rw [ih r' (by simpa using h)]
+    · simp only [weaveA, gapVecA]
+      exact ih r (by simpa using h)
+
+/-- the gap-vector update performed by one merge, seen on the finished row -/
+theorem row_updateGaps_A (cs : List Col) (s : GSeq α) (hwf : s.WF) (hl : s.row.length = consA cs) :
+    makeLinear s.res (updateGaps s.gaps (gapVecA cs)) = weaveA cs s.row := by
+  rw [weaveA_eq_insertCols cs s.row hl]
+  exact (weave s.res s.gaps (gapVecA cs) hwf (by rw [length_gapVecA]; exact congrArg (· + 1) hl.symm)).symm
+
+theorem row_updateGaps_B (cs : List Col) (s : GSeq α) (hwf : s.WF) (hl : s.row.length = consB cs) :
+    makeLinear s.res (updateGaps s.gaps (gapVecB cs)) = weaveB cs s.row := by
+  rw [gapVecB_eq_swap, weaveB_eq_swap]
+  exact row_updateGaps_A _ s hwf (by rw [← consB_eq_swap]; exact hl)
+
+/-! ## index view of `weaveA` -/
+
+theorem length_weaveA (cs : List Col) (r : List (Option α)) (hs : Col.skip ∉ cs)
+    (h : r.length = consA cs) : (weaveA cs r).length = cs.length := by
+  induction cs generalizing r with
+  | nil => simpa [weaveA] using h
+  | cons c cs ih =>
+    have hs' : Col.skip ∉ cs := fun hm => hs (List.mem_cons_of_mem _ hm)
+    cases c
+    · match r, h with
+      | x :: r', h => simp [weaveA, ih r' hs' (by simpa using h)]
+    · simp [weaveA, ih r hs' (by simpa using h)]
+    · match r, h with
+      | x :: r', h => simp [weaveA, ih r' hs' (by simpa using h)]
+    · exact absurd (List.mem_cons_self) hs
+
+theorem length_weaveB (cs : List Col) (r : List (Option α)) (hs : Col.skip ∉ cs)
+    (h : r.length = consB cs) : (weaveB cs r).length = cs.length := by
+  rw [weaveB_eq_swap, length_weaveA _ _ (skip_not_mem_swap cs hs) (by rw [← consB_eq_swap]; exact h)]
+  simp
+
+@[simp] theorem cell_nil (k : Nat) : cell ([] : List (Option α)) k = none := by simp [cell]
+@[simp] theorem cell_cons_zero (x : Option α) (r : List (Option α)) : cell (x :: r) 0 = x := by
+  cases x <;> simp [cell]
+@[simp] theorem cell_cons_succ (x : Option α) (r : List (Option α)) (k : Nat) :
+    cell (x :: r) (k + 1) = cell r k := by simp [cell]
+
+theorem cell_weaveA_nil (cs : List Col) (k : Nat) : cell (weaveA cs ([] : List (Option α))) k = none := by
+  induction cs generalizing k with
+  | nil => simp [weaveA]
+  | cons c cs ih =>
+    cases c <;> simp only [weaveA] <;> first | exact ih k | (cases k <;> simp [ih])
+
+/-- column `k` of the woven row: a gap for a gap-in-a column, else the old column number
+`consA (cs.take k)` -/
+theorem cell_weaveA (cs : List Col) (r : List (Option α)) (hs : Col.skip ∉ cs) (k : Nat)
+    (hk : k < cs.length) :
+    cell (weaveA cs r) k = if cs[k]? = some Col.gapA then none else cell r (consA (cs.take k)) := by
+  induction cs generalizing r k with
+  | nil => simp at hk
+  | cons c cs ih =>
+    have hs' : Col.skip ∉ cs := fun hm => hs (List.mem_cons_of_mem _ hm)
+    cases c
+    · cases r with
+      | nil => simp [weaveA, cell_weaveA_nil]
+      | cons x r' =>
+        cases k with
+        | zero => simp [weaveA]
+        | succ k => simp [weaveA, ih r' hs' k (by simpa using hk)]
+    · cases k with
+      | zero => simp [weaveA]
+      | succ k => simp [weaveA, ih r hs' k (by simpa using hk)]
+    · cases r with
+      | nil => simp [weaveA, cell_weaveA_nil]
+      | cons x r' =>
+        cases k with
+        | zero => simp [weaveA]
+        | succ k => simp [weaveA, ih r' hs' k (by simpa using hk)]
+    · exact absurd (List.mem_cons_self) hs
+
+/-! ## dropping all-gap columns after a weave -/
+
+theorem filter_range_succ (n : Nat) (p : Nat → Bool) :
+    (List.range (n + 1)).filter p
+      = (if p 0 then [0] else []) ++ ((List.range n).filter (fun k => p (k + 1))).map (· + 1) := by
+  rw [List.range_succ_eq_map, List.filter_cons, List.filter_map]
+  cases p 0 <;> simp [Function.comp_def]
+
+theorem keep_map (cs : List Col) (hs : Col.skip ∉ cs) (P : Nat → Bool) :
+    ((List.range cs.length).filter
+        (fun k => decide (cs[k]? ≠ some Col.gapA) && P (consA (cs.take k)))).map
+        (fun k => consA (cs.take k))
+      = (List.range (consA cs)).filter P := by
+  induction cs generalizing P with
+  | nil => simp
+  | cons c cs ih =>
+    have hs' : Col.skip ∉ cs := fun hm => hs (List.mem_cons_of_mem _ hm)
+    rw [List.length_cons, filter_range_succ]
+    cases c
+    · have := ih hs' (fun j => P (j + 1))
+      rw [consA_both, filter_range_succ, ← this]
+      cases h0 : P 0 <;> simp [Function.comp_def, h0]
+    · have := ih hs' P
+      simp [← this, Function.comp_def]
+    · have := ih hs' (fun j => P (j + 1))
+      rw [consA_gapB, filter_range_succ, ← this]
+      cases h0 : P 0 <;> simp [Function.comp_def, h0]
+    · exact absurd (List.mem_cons_self) hs
+
+theorem colAllGap_weaveA (cs : List Col) (hs : Col.skip ∉ cs) (R : List (List (Option α)))
+    (k : Nat) (hk : k < cs.length) :
+    colAllGap (R.map (weaveA cs)) k
+      = (decide (cs[k]? = some Col.gapA) || colAllGap R (consA (cs.take k))) := by
+  induction R with
+  | nil => simp [colAllGap]
+  | cons r R ih =>
+    simp only [colAllGap, List.map_cons, List.all_cons] at ih ⊢
+    rw [ih, cell_weaveA cs r hs k hk]
+    by_cases h : cs[k]? = some Col.gapA <;> simp [h]
+
+theorem dropAllGapCols_weaveA (cs : List Col) (hs : Col.skip ∉ cs) (R : List (List (Option α))) :
+    dropAllGapCols (R.map (weaveA cs)) cs.length = dropAllGapCols R (consA cs) := by
+  unfold dropAllGapCols
+  simp only [List.map_map]
+  apply List.map_congr_left
+  intro r _
+  simp only [Function.comp_apply]
+  have hf : (List.range cs.length).filter (fun k => !colAllGap (R.map (weaveA cs)) k)
+      = (List.range cs.length).filter
+          (fun k => decide (cs[k]? ≠ some Col.gapA) && !colAllGap R (consA (cs.take k))) := by
+    apply List.filter_congr
+    intro k hk
+    rw [colAllGap_weaveA cs hs R k (by simpa using hk)]
+    simp
+  rw [hf, ← keep_map cs hs (fun j => !colAllGap R j), List.map_map]
+  apply List.map_congr_left
+  intro k hk
+  have hk' := List.mem_filter.1 hk
+  rw [Function.comp_apply, cell_weaveA cs r hs k (by simpa using hk'.1)]
+  have : cs[k]? ≠ some Col.gapA := by have := hk'.2; simp at this; exact this.1
+  simp [this]
+
+/-! ## B-side versions -/
+
+theorem getElem?_map_swap_gapA (cs : List Col) (k : Nat) :
+    ((cs.map Col.swap)[k]? = some Col.gapA) ↔ (cs[k]? = some Col.gapB) := by
+  rw [List.getElem?_map]
+  cases h : cs[k]? with
+  | none => simp
+  | some c => cases c <;> simp [Col.swap]
+
+theorem cell_weaveB (cs : List Col) (r : List (Option α)) (hs : Col.skip ∉ cs) (k : Nat)
+    (hk : k < cs.length) :
+    cell (weaveB cs r) k = if cs[k]? = some Col.gapB then none else cell r (consB (cs.take k)) := by
+  rw [weaveB_eq_swap, cell_weaveA _ r (skip_not_mem_swap cs hs) k (by simpa using hk),
+    consB_eq_swap, List.map_take]
+  simp only [getElem?_map_swap_gapA]
+
+theorem colAllGap_weaveB (cs : List Col) (hs : Col.skip ∉ cs) (R : List (List (Option α)))
+    (k : Nat) (hk : k < cs.length) :
+    colAllGap (R.map (weaveB cs)) k
+      = (decide (cs[k]? = some Col.gapB) || colAllGap R (consB (cs.take k))) := by
+  have hf : (weaveB cs : List (Option α) → _) = weaveA (cs.map Col.swap) :=
+    funext fun r => weaveB_eq_swap cs r
+  rw [hf, colAllGap_weaveA _ (skip_not_mem_swap cs hs) R k (by simpa using hk),
+    consB_eq_swap, List.map_take]
+  simp only [getElem?_map_swap_gapA]
+
+theorem dropAllGapCols_weaveB (cs : List Col) (hs : Col.skip ∉ cs) (R : List (List (Option α))) :
+    dropAllGapCols (R.map (weaveB cs)) cs.length = dropAllGapCols R (consB cs) := by
+  have hf : (weaveB cs : List (Option α) → _) = weaveA (cs.map Col.swap) :=
+    funext fun r => weaveB_eq_swap cs r
+  rw [hf, consB_eq_swap, ← dropAllGapCols_weaveA _ (skip_not_mem_swap cs hs) R, List.length_map]
+
+theorem consA_take_lt (cs : List Col) (k : Nat) (c : Col) (hc : cs[k]? = some c)
+    (h : c = .both ∨ c = .gapB) : consA (cs.take k) < consA cs := by
+  have hk : k < cs.length := by
+    rcases Nat.lt_or_ge k cs.length with h' | h'
+    · exact h'
+    · rw [List.getElem?_eq_none h'] at hc; cases hc
+  have hd : cs = cs.take k ++ c :: cs.drop (k + 1) := by
+    have := List.getElem?_eq_getElem hk
+    rw [this] at hc; cases hc
+    simp
+  have : consA cs = consA (cs.take k) + consA (c :: cs.drop (k + 1)) := by
+    rw [← consA_append, ← hd]
+  rcases h with rfl | rfl <;> simp at this <;> omega
+
+theorem consB_take_lt (cs : List Col) (k : Nat) (c : Col) (hc : cs[k]? = some c)
+    (h : c = .both ∨ c = .gapA) : consB (cs.take k) < consB cs := by
+  rw [consB_eq_swap, consB_eq_swap, List.map_take]
+  apply consA_take_lt _ k c.swap
+  · rw [List.getElem?_map, hc]; rfl
+  · rcases h with rfl | rfl <;> simp [Col.swap]
+
+/-! ## one merge on groups -/
+
+def updA (cs : List Col) (m : Member α) : Member α :=
+  { m with seq := { m.seq with gaps := updateGaps m.seq.gaps (gapVecA cs) } }
+def updB (cs : List Col) (m : Member α) : Member α :=
+  { m with seq := { m.seq with gaps := updateGaps m.seq.gaps (gapVecB cs) } }
+
+theorem mergeGroups_eq (codes : List Nat) (A B : Group α) :
+    mergeGroups codes A B
+      = A.reverse.map (updA (codes.map Col.ofCode)) ++ B.reverse.map (updB (codes.map Col.ofCode)) :=
+  rfl
+
+@[simp] theorem updA_idx (cs : List Col) (m : Member α) : (updA cs m).idx = m.idx := rfl
+@[simp] theorem updB_idx (cs : List Col) (m : Member α) : (updB cs m).idx = m.idx := rfl
+@[simp] theorem updA_res (cs : List Col) (m : Member α) : (updA cs m).seq.res = m.seq.res := rfl
+@[simp] theorem updB_res (cs : List Col) (m : Member α) : (updB cs m).seq.res = m.seq.res := rfl
+
+theorem updA_wf (cs : List Col) (m : Member α) (h : m.seq.WF) : (updA cs m).seq.WF := by
+  simp only [GSeq.WF, updA, length_updateGaps]; exact h
+theorem updB_wf (cs : List Col) (m : Member α) (h : m.seq.WF) : (updB cs m).seq.WF := by
+  simp only [GSeq.WF, updB, length_updateGaps]; exact h
+
+theorem updA_row (cs : List Col) (m : Member α) (h : m.seq.WF) (hl : m.seq.row.length = consA cs) :
+    (updA cs m).seq.row = weaveA cs m.seq.row := row_updateGaps_A cs m.seq h hl
+theorem updB_row (cs : List Col) (m : Member α) (h : m.seq.WF) (hl : m.seq.row.length = consB cs) :
+    (updB cs m).seq.row = weaveB cs m.seq.row := row_updateGaps_B cs m.seq h hl
+
+theorem mem_mergeGroups (codes : List Nat) (A B : Group α) (m' : Member α) :
+    m' ∈ mergeGroups codes A B ↔
+      (∃ m ∈ A, m' = updA (codes.map Col.ofCode) m) ∨ (∃ m ∈ B, m' = updB (codes.map Col.ofCode) m) := by
+  simp only [mergeGroups_eq, List.mem_append, List.mem_map, List.mem_reverse, eq_comm]
+
+theorem mergeGroups_idx (codes : List Nat) (A B : Group α) :
+    (mergeGroups codes A B).map (·.idx) = (A.map (·.idx)).reverse ++ (B.map (·.idx)).reverse := by
+  simp [mergeGroups_eq, Function.comp_def]
+
+theorem mergeGroups_rows (codes : List Nat) (A B : Group α)
+    (wfA : ∀ m ∈ A, m.seq.WF) (wfB : ∀ m ∈ B, m.seq.WF)
+    (lenA : ∀ m ∈ A, m.seq.row.length = consA (codes.map Col.ofCode))
+    (lenB : ∀ m ∈ B, m.seq.row.length = consB (codes.map Col.ofCode)) :
+    (mergeGroups codes A B).map (·.seq.row)
+      = (A.reverse.map (·.seq.row)).map (weaveA (codes.map Col.ofCode)) ++
+        (B.reverse.map (·.seq.row)).map (weaveB (codes.map Col.ofCode)) := by
+  rw [mergeGroups_eq, List.map_append, List.map_map, List.map_map, List.map_map, List.map_map]
+  congr 1
+  · apply List.map_congr_left
+    intro m hm
+    have hm' := List.mem_reverse.1 hm
+    exact updA_row _ m (wfA m hm') (lenA m hm')
+  · apply List.map_congr_left
+    intro m hm
+    have hm' := List.mem_reverse.1 hm
+    exact updB_row _ m (wfB m hm') (lenB m hm')
+
+theorem plen_of_forall (g : Group α) (n : Nat) (hne : g ≠ []) (h : ∀ m ∈ g, m.seq.row.length = n) :
+    g.plen = n := by
+  cases g with
+  | nil => exact absurd rfl hne
+  | cons m g => exact h m List.mem_cons_self
+
+theorem colAllGap_append (X Y : List (List (Option α))) (k : Nat) :
+    colAllGap (X ++ Y) k = (colAllGap X k && colAllGap Y k) := by
+  simp [colAllGap]
+
+theorem colAllGap_reverse (X : List (List (Option α))) (k : Nat) :
+    colAllGap X.reverse k = colAllGap X k := by
+  simp [colAllGap]
+
+/-- everything `GroupOK` says about a merged group, from the same facts about the two halves -/
+theorem merge_ok (seqs : Nat → List α) (codes : List Nat) (A B : Group α)
+    (wfA : ∀ m ∈ A, m.seq.WF) (resA : ∀ m ∈ A, m.seq.res = seqs m.idx)
+    (lenA : ∀ m ∈ A, m.seq.row.length = A.plen)
+    (ngA : NoAllGapCol (A.map (·.seq.row)) A.plen)
+    (wfB : ∀ m ∈ B, m.seq.WF) (resB : ∀ m ∈ B, m.seq.res = seqs m.idx)
+    (lenB : ∀ m ∈ B, m.seq.row.length = B.plen)
+    (ngB : NoAllGapCol (B.map (·.seq.row)) B.plen)
+    (hAne : A ≠ [])
+    (hv : ValidCols (codes.map Col.ofCode) A.plen B.plen) :
+    (∀ m ∈ mergeGroups codes A B, m.seq.WF) ∧
+    (∀ m ∈ mergeGroups codes A B, m.seq.res = seqs m.idx) ∧
+    (∀ m ∈ mergeGroups codes A B, m.seq.row.length = codes.length) ∧
+    NoAllGapCol ((mergeGroups codes A B).map (·.seq.row)) codes.length ∧
+    (mergeGroups codes A B).plen = codes.length := by
+  obtain ⟨hs, hca, hcb⟩ := hv
+  have hlen : ∀ m ∈ mergeGroups codes A B, m.seq.row.length = codes.length := by
+    intro m' hm'
+    rcases (mem_mergeGroups codes A B m').1 hm' with ⟨m, hm, rfl⟩ | ⟨m, hm, rfl⟩
+    · rw [updA_row _ m (wfA m hm) (by rw [lenA m hm, hca]),
+        length_weaveA _ _ hs (by rw [lenA m hm, hca]), List.length_map]
+    · rw [updB_row _ m (wfB m hm) (by rw [lenB m hm, hcb]),
+        length_weaveB _ _ hs (by rw [lenB m hm, hcb]), List.length_map]
+  refine ⟨?_, ?_, hlen, ?_, ?_⟩
+  · intro m' hm'
+    rcases (mem_mergeGroups codes A B m').1 hm' with ⟨m, hm, rfl⟩ | ⟨m, hm, rfl⟩
+    · exact updA_wf _ m (wfA m hm)
+    · exact updB_wf _ m (wfB m hm)
+  · intro m' hm'
+    rcases (mem_mergeGroups codes A B m').1 hm' with ⟨m, hm, rfl⟩ | ⟨m, hm, rfl⟩
+    · exact resA m hm
+    · exact resB m hm
+  · intro k hk
+    rw [mergeGroups_rows codes A B wfA wfB (fun m hm => by rw [lenA m hm, hca])
+      (fun m hm => by rw [lenB m hm, hcb]), colAllGap_append]
+    have hk' : k < (codes.map Col.ofCode).length := by simpa using hk
+    rw [colAllGap_weaveA _ hs _ k hk', colAllGap_weaveB _ hs _ k hk', List.map_reverse,
+      List.map_reverse, colAllGap_reverse, colAllGap_reverse]
+    have hget := List.getElem?_eq_getElem hk'
+    generalize (codes.map Col.ofCode)[k] = c at hget
+    have hcm : c ∈ codes.map Col.ofCode := List.mem_of_getElem? hget
+    cases c
+    · have := ngA _ (hca ▸ consA_take_lt _ k _ hget (Or.inl rfl))
+      simp [hget, this]
+    · have := ngB _ (hcb ▸ consB_take_lt _ k _ hget (Or.inr rfl))
+      simp [hget, this]
+    · have := ngA _ (hca ▸ consA_take_lt _ k _ hget (Or.inr rfl))
+      simp [hget, this]
+    · exact absurd hcm hs
+  · apply plen_of_forall _ _ _ hlen
+    cases A with
+    | nil => exact absurd rfl hAne
+    | cons a A => simp [mergeGroups_eq]
+
+/-! ## the whole tree -/
+
+theorem makeLinear_replicate_zero (s : List α) :
+    makeLinear s (List.replicate (s.length + 1) 0) = s.map some := by
+  induction s with
+  | nil => simp [makeLinear]
+  | cons x xs ih =>
+    rw [List.length_cons, List.replicate_succ]
+    simp only [makeLinear, List.replicate_zero, List.nil_append, List.map_cons, ih]
+
+theorem cell_map_some (s : List α) (k : Nat) (hk : k < s.length) :
+    cell (s.map some) k = some s[k] := by
+  simp [cell, hk]
+
+theorem mergeGroups_ne_nil (codes : List Nat) (A B : Group α) (hA : A ≠ []) :
+    mergeGroups codes A B ≠ [] := by
+  cases A with
+  | nil => exact absurd rfl hA
+  | cons a A => simp [mergeGroups_eq]
+
+theorem alignTree_ok (seqs : Nat → List α) (al : Aligner α) (hal : al.Valid) (T : Tree) :
+    alignTree seqs al T ≠ [] ∧
+    (∀ m ∈ alignTree seqs al T, m.seq.WF) ∧
+    (∀ m ∈ alignTree seqs al T, m.seq.res = seqs m.idx) ∧
+    (∀ m ∈ alignTree seqs al T, m.seq.row.length = (alignTree seqs al T).plen) ∧
+    NoAllGapCol ((alignTree seqs al T).map (·.seq.row)) (alignTree seqs al T).plen ∧
+    ((alignTree seqs al T).map (·.idx)).Perm T.leaves := by
+  induction T with
+  | leaf i =>
+    refine ⟨by simp [alignTree], ?_, ?_, ?_, ?_, ?_⟩
+    · intro m hm
+      simp only [alignTree, List.mem_singleton] at hm
+      subst hm; simp [GSeq.WF]
+    · intro m hm
+      simp only [alignTree, List.mem_singleton] at hm
+      subst hm; rfl
+    · intro m hm
+      simp only [alignTree, List.mem_singleton] at hm
+      subst hm; rfl
+    · intro k hk
+      simp only [alignTree, Group.plen, GSeq.row, makeLinear_replicate_zero, List.length_map] at hk
+      simp [alignTree, colAllGap, GSeq.row, makeLinear_replicate_zero, cell_map_some _ k hk]
+    · simp [alignTree, Tree.leaves]
+  | node l r ihl ihr =>
+    obtain ⟨neA, wfA, resA, lenA, ngA, pA⟩ := ihl
+    obtain ⟨neB, wfB, resB, lenB, ngB, pB⟩ := ihr
+    have hv := hal (alignTree seqs al l) (alignTree seqs al r)
+    obtain ⟨h1, h2, h3, h4, h5⟩ :=
+      merge_ok seqs _ _ _ wfA resA lenA ngA wfB resB lenB ngB neA hv
+    simp only [alignTree]
+    refine ⟨?_, h1, h2, ?_, ?_, ?_⟩
+    · exact mergeGroups_ne_nil _ _ _ neA
+    · intro m hm; rw [h5]; exact h3 m hm
+    · rw [h5]; exact h4
+    · rw [mergeGroups_idx, Tree.leaves]
+      exact (List.reverse_perm _).trans pA |>.append ((List.reverse_perm _).trans pB)
+
+/-! ## looking rows up by index -/
+
+theorem find?_idx_of_nodup (g : Group α) (hnd : (g.map (·.idx)).Nodup) (m : Member α) (hm : m ∈ g) :
+    g.find? (·.idx = m.idx) = some m := by
+  induction g with
+  | nil => cases hm
+  | cons a g ih =>
+    rw [List.map_cons, List.nodup_cons] at hnd
+    rcases List.mem_cons.1 hm with rfl | hm'
+    · simp
+    · have hne : a.idx ≠ m.idx := by
+        intro h; apply hnd.1; rw [h]; exact List.mem_map_of_mem hm'
+      rw [List.find?_cons_of_neg (by simpa using hne)]
+      exact ih hnd.2 hm'
+
+theorem finalRow_of_mem (g : Group α) (hnd : (g.map (·.idx)).Nodup) (m : Member α) (hm : m ∈ g) :
+    finalRow g m.idx = some m.seq.row := by
+  simp [finalRow, find?_idx_of_nodup g hnd m hm]
+
+theorem alignTree_idx_nodup (seqs : Nat → List α) (al : Aligner α) (hal : al.Valid) (T : Tree)
+    (hnd : T.leaves.Nodup) : ((alignTree seqs al T).map (·.idx)).Nodup :=
+  (alignTree_ok seqs al hal T).2.2.2.2.2.nodup_iff.2 hnd
+
+theorem exists_mem_of_leaf (seqs : Nat → List α) (al : Aligner α) (hal : al.Valid) (T : Tree)
+    (i : Nat) (hi : i ∈ T.leaves) : ∃ m ∈ alignTree seqs al T, m.idx = i := by
+  have := (alignTree_ok seqs al hal T).2.2.2.2.2.mem_iff.2 hi
+  simpa using this
+
+theorem rows_ok (seqs : Nat → List α) (al : Aligner α) (hal : al.Valid) (T : Tree)
+    (hnd : T.leaves.Nodup) (i : Nat) (hi : i ∈ T.leaves) :
+    ∃ row, finalRow (alignTree seqs al T) i = some row ∧
+      degap row = seqs i ∧ row.length = (alignTree seqs al T).plen := by
+  obtain ⟨m, hm, rfl⟩ := exists_mem_of_leaf seqs al hal T i hi
+  obtain ⟨_, wf, res, len, _, _⟩ := alignTree_ok seqs al hal T
+  refine ⟨m.seq.row, finalRow_of_mem _ (alignTree_idx_nodup seqs al hal T hnd) m hm, ?_, len m hm⟩
+  rw [GSeq.row, degap_makeLinear _ _ (wf m hm), res m hm]
+
+/-! ## C10: finished sub-alignments are only woven, never re-aligned -/
+
+theorem range_map_cell (r : List (Option α)) : (List.range r.length).map (cell r) = r := by
+  apply List.ext_getElem
+  · simp
+  · intro k h1 h2
+    simp [cell, h2]
+
+theorem dropAllGapCols_id (R : List (List (Option α))) (L : Nat) (hl : ∀ r ∈ R, r.length = L)
+    (hn : NoAllGapCol R L) : dropAllGapCols R L = R := by
+  unfold dropAllGapCols
+  have hf : (List.range L).filter (fun k => !colAllGap R k) = List.range L := by
+    apply List.filter_eq_self.2
+    intro k hk
+    simp [hn k (by simpa using hk)]
+  rw [hf]
+  conv => rhs; rw [← List.map_id R]
+  apply List.map_congr_left
+  intro r hr
+  rw [← hl r hr, range_map_cell]; rfl
+
+theorem leaves_sub {v T : Tree} (h : Tree.Sub v T) : ∀ i ∈ v.leaves, i ∈ T.leaves := by
+  induction h with
+  | refl => exact fun _ h => h
+  | left _ ih => intro i hi; exact List.mem_append_left _ (ih i hi)
+  | right _ ih => intro i hi; exact List.mem_append_right _ (ih i hi)
+
+theorem finalRow_node_left (seqs : Nat → List α) (al : Aligner α) (hal : al.Valid) (l r : Tree)
+    (hnd : (Tree.node l r).leaves.Nodup) (i : Nat) (hi : i ∈ l.leaves) :
+    (finalRow (alignTree seqs al (.node l r)) i).getD []
+      = weaveA ((al (alignTree seqs al l) (alignTree seqs al r)).map Col.ofCode)
+          ((finalRow (alignTree seqs al l) i).getD []) := by
+  obtain ⟨m, hm, rfl⟩ := exists_mem_of_leaf seqs al hal l i hi
+  have hndl : l.leaves.Nodup := (List.nodup_append.1 hnd).1
+  obtain ⟨_, wf, _, len, _, _⟩ := alignTree_ok seqs al hal l
+  have hv := hal (alignTree seqs al l) (alignTree seqs al r)
+  rw [finalRow_of_mem _ (alignTree_idx_nodup seqs al hal l hndl) m hm]
+  have hm' : updA ((al (alignTree seqs al l) (alignTree seqs al r)).map Col.ofCode) m
+      ∈ alignTree seqs al (.node l r) :=
+    (mem_mergeGroups _ _ _ _).2 (Or.inl ⟨m, hm, rfl⟩)
+  have := finalRow_of_mem _ (alignTree_idx_nodup seqs al hal _ hnd) _ hm'
+  rw [updA_idx] at this
+  rw [this, Option.getD_some, Option.getD_some, updA_row _ m (wf m hm) (by rw [len m hm, hv.2.1])]
+
+theorem finalRow_node_right (seqs : Nat → List α) (al : Aligner α) (hal : al.Valid) (l r : Tree)
+    (hnd : (Tree.node l r).leaves.Nodup) (i : Nat) (hi : i ∈ r.leaves) :
+    (finalRow (alignTree seqs al (.node l r)) i).getD []
+      = weaveB ((al (alignTree seqs al l) (alignTree seqs al r)).map Col.ofCode)
+          ((finalRow (alignTree seqs al r) i).getD []) := by
+  obtain ⟨m, hm, rfl⟩ := exists_mem_of_leaf seqs al hal r i hi
+  have hndr : r.leaves.Nodup := (List.nodup_append.1 hnd).2.1
+  obtain ⟨_, wf, _, len, _, _⟩ := alignTree_ok seqs al hal r
+  have hv := hal (alignTree seqs al l) (alignTree seqs al r)
+  rw [finalRow_of_mem _ (alignTree_idx_nodup seqs al hal r hndr) m hm]
+  have hm' : updB ((al (alignTree seqs al l) (alignTree seqs al r)).map Col.ofCode) m
+      ∈ alignTree seqs al (.node l r) :=
+    (mem_mergeGroups _ _ _ _).2 (Or.inr ⟨m, hm, rfl⟩)
+  have := finalRow_of_mem _ (alignTree_idx_nodup seqs al hal _ hnd) _ hm'
+  rw [updB_idx] at this
+  rw [this, Option.getD_some, Option.getD_some, updB_row _ m (wf m hm) (by rw [len m hm, hv.2.2])]
+
+theorem mem_idx_leaves (seqs : Nat → List α) (al : Aligner α) (hal : al.Valid) (T : Tree)
+    (m : Member α) (hm : m ∈ alignTree seqs al T) : m.idx ∈ T.leaves :=
+  (alignTree_ok seqs al hal T).2.2.2.2.2.mem_iff.1 (List.mem_map_of_mem hm)
+
+theorem subalignment_preserved (seqs : Nat → List α) (al : Aligner α) (hal : al.Valid)
+    (T v : Tree) (hsub : Tree.Sub v T) (hnd : T.leaves.Nodup) :
+    dropAllGapCols ((alignTree seqs al v).map fun m => ((finalRow (alignTree seqs al T) m.idx).getD []))
+        (alignTree seqs al T).plen
+      = (alignTree seqs al v).map (·.seq.row) := by
+  induction hsub with
+  | refl =>
+    obtain ⟨_, _, _, len, ng, _⟩ := alignTree_ok seqs al hal v
+    have : ((alignTree seqs al v).map fun m => ((finalRow (alignTree seqs al v) m.idx).getD []))
+        = (alignTree seqs al v).map (·.seq.row) := by
+      apply List.map_congr_left
+      intro m hm
+      rw [finalRow_of_mem _ (alignTree_idx_nodup seqs al hal v hnd) m hm]; rfl
+    rw [this]
+    apply dropAllGapCols_id _ _ _ ng
+    intro r hr
+    obtain ⟨m, hm, rfl⟩ := List.mem_map.1 hr
+    exact len m hm
+  | @left l r hs ih =>
+    have hndl : l.leaves.Nodup := (List.nodup_append.1 hnd).1
+    have hv := hal (alignTree seqs al l) (alignTree seqs al r)
+    obtain ⟨neA, wfA, resA, lenA, ngA, _⟩ := alignTree_ok seqs al hal l
+    obtain ⟨_, wfB, resB, lenB, ngB, _⟩ := alignTree_ok seqs al hal r
+    have hp : (alignTree seqs al (.node l r)).plen
+        = ((al (alignTree seqs al l) (alignTree seqs al r)).map Col.ofCode).length := by
+      rw [List.length_map]
+      exact (merge_ok seqs _ _ _ wfA resA lenA ngA wfB resB lenB ngB neA hv).2.2.2.2
+    have : ((alignTree seqs al v).map fun m =>
+          ((finalRow (alignTree seqs al (.node l r)) m.idx).getD []))
+        = ((alignTree seqs al v).map fun m => ((finalRow (alignTree seqs al l) m.idx).getD [])).map
+            (weaveA ((al (alignTree seqs al l) (alignTree seqs al r)).map Col.ofCode)) := by
+      rw [List.map_map]
+      apply List.map_congr_left
+      intro m hm
+      exact finalRow_node_left seqs al hal l r hnd m.idx
+        (leaves_sub hs _ (mem_idx_leaves seqs al hal v m hm))
+    rw [this, hp, dropAllGapCols_weaveA _ hv.1, hv.2.1]
+    exact ih hndl
+  | @right l r hs ih =>
+    have hndr : r.leaves.Nodup := (List.nodup_append.1 hnd).2.1
+    have hv := hal (alignTree seqs al l) (alignTree seqs al r)
+    obtain ⟨neA, wfA, resA, lenA, ngA, _⟩ := alignTree_ok seqs al hal l
+    obtain ⟨_, wfB, resB, lenB, ngB, _⟩ := alignTree_ok seqs al hal r
+    have hp : (alignTree seqs al (.node l r)).plen
+        = ((al (alignTree seqs al l) (alignTree seqs al r)).map Col.ofCode).length := by
+      rw [List.length_map]
+      exact (merge_ok seqs _ _ _ wfA resA lenA ngA wfB resB lenB ngB neA hv).2.2.2.2
+    have : ((alignTree seqs al v).map fun m =>
+          ((finalRow (alignTree seqs al (.node l r)) m.idx).getD []))
+        = ((alignTree seqs al v).map fun m => ((finalRow (alignTree seqs al r) m.idx).getD [])).map
+            (weaveB ((al (alignTree seqs al l) (alignTree seqs al r)).map Col.ofCode)) := by
+      rw [List.map_map]
+      apply List.map_congr_left
+      intro m hm
+      exact finalRow_node_right seqs al hal l r hnd m.idx
+        (leaves_sub hs _ (mem_idx_leaves seqs al hal v m hm))
+    rw [this, hp, dropAllGapCols_weaveB _ hv.1, hv.2.2]
+    exact ih hndr
+
+theorem cell_map_cell (r : List (Option α)) (l : List Nat) (k : Nat) (x : α)
+    (h : cell (l.map (cell r)) k = some x) : ∃ k', cell r k' = some x ∧ l[k]? = some k' := by
+  unfold cell at h
+  rw [List.getElem?_map] at h
+  cases hk : l[k]? with
+  | none => rw [hk] at h; simp at h
+  | some k' =>
+    rw [hk] at h
+    exact ⟨k', by simpa [cell] using h, rfl⟩
+
+theorem column_mates_stay (seqs : Nat → List α) (al : Aligner α) (hal : al.Valid)
+    (T v : Tree) (hsub : Tree.Sub v T) (hnd : T.leaves.Nodup)
+    (m₁ m₂ : Member α) (h₁ : m₁ ∈ alignTree seqs al v) (h₂ : m₂ ∈ alignTree seqs al v)
+    (k : Nat) (x y : α) (hx : cell m₁.seq.row k = some x) (hy : cell m₂.seq.row k = some y) :
+    ∃ k', cell ((finalRow (alignTree seqs al T) m₁.idx).getD []) k' = some x ∧
+          cell ((finalRow (alignTree seqs al T) m₂.idx).getD []) k' = some y := by
+  have h := subalignment_preserved seqs al hal T v hsub hnd
+  unfold dropAllGapCols at h
+  rw [List.map_map] at h
+  have h' := List.map_inj_left.1 h
+  have e1 := h' m₁ h₁
+  have e2 := h' m₂ h₂
+  simp only [Function.comp_apply] at e1 e2
+  rw [← e1] at hx
+  rw [← e2] at hy
+  obtain ⟨k1, hk1, hl1⟩ := cell_map_cell _ _ _ _ hx
+  obtain ⟨k2, hk2, hl2⟩ := cell_map_cell _ _ _ _ hy
+  rw [hl1] at hl2
+  cases hl2
+  exact ⟨k1, hk1, hk2⟩
+
+/-! ## path expansion (`add_gap_info_to_path_n`) -/
+
+theorem ofCode_or32 (c : Nat) (h : c ≠ 0) : Col.ofCode (c ||| 32) = Col.ofCode c := by
+  have h4 : (c ||| 32) % 4 = c % 4 := by
+    have := Nat.or_mod_two_pow (a := c) (b := 32) (n := 2)
+    simpa using this
+  have hne : c ||| 32 ≠ 0 := by
+    intro h0
+    have := @Nat.right_le_or c 32
+    omega
+  unfold Col.ofCode
+  rw [if_neg h, if_neg hne]
+  have e1 : (c ||| 32) % 2 = c % 2 := by omega
+  have e2 : (c ||| 32) / 2 % 2 = c / 2 % 2 := by omega
+  rw [e1, e2]
+
+theorem map_ofCode_markPrefix (l : List Nat) :
+    (markPrefix l).map Col.ofCode = l.map Col.ofCode := by
+  induction l with
+  | nil => rfl
+  | cons c cs ih =>
+    unfold markPrefix
+    by_cases h : c = 0
+    · simp [h]
+    · simp [h, ih, ofCode_or32 c h]
+
+theorem map_ofCode_markSuffix (l : List Nat) :
+    (markSuffix l).map Col.ofCode = l.map Col.ofCode := by
+  unfold markSuffix
+  rw [List.map_reverse, map_ofCode_markPrefix, ← List.map_reverse, List.reverse_reverse]
+
+/-- summary of a list of codes: no skip column, and its two consumption counts -/
+def CodesStat (l : List Nat) (a b : Nat) : Prop :=
+  Col.skip ∉ l.map Col.ofCode ∧ consA (l.map Col.ofCode) = a ∧ consB (l.map Col.ofCode) = b
+
+theorem CodesStat.append {l₁ l₂ : List Nat} {a₁ b₁ a₂ b₂ : Nat}
+    (h₁ : CodesStat l₁ a₁ b₁) (h₂ : CodesStat l₂ a₂ b₂) : CodesStat (l₁ ++ l₂) (a₁ + a₂) (b₁ + b₂) := by
+  obtain ⟨s1, a1, b1⟩ := h₁
+  obtain ⟨s2, a2, b2⟩ := h₂
+  refine ⟨?_, ?_, ?_⟩
+  · rw [List.map_append, List.mem_append]; exact fun h => h.elim s1 s2
+  · rw [List.map_append, consA_append, a1, a2]
+  · rw [List.map_append, consB_append, b1, b2]
+
+theorem CodesStat.nil : CodesStat [] 0 0 := ⟨by simp, rfl, rfl⟩
+theorem CodesStat.zero : CodesStat [0] 1 1 := ⟨by decide, by decide, by decide⟩
+theorem CodesStat.two : CodesStat [2] 1 0 := ⟨by decide, by decide, by decide⟩
+theorem CodesStat.ones (n : Nat) : CodesStat (List.replicate n 1) 0 n := by
+  induction n with
+  | zero => exact CodesStat.nil
+  | succ n ih =>
+    obtain ⟨s, a, b⟩ := ih
+    have h1 : Col.ofCode 1 = Col.gapA := by decide
+    refine ⟨?_, ?_, ?_⟩
+    · simp only [List.replicate_succ, List.map_cons, List.mem_cons, h1]
+      exact fun h => h.elim (by decide) s
+    · simp only [List.replicate_succ, List.map_cons, h1, consA_gapA]; exact a
+    · simp only [List.replicate_succ, List.map_cons, h1, consB_gapA, b]
+
+theorem CodesStat.cast {l : List Nat} {a b a' b' : Nat} (h : CodesStat l a b) (ha : a = a')
+    (hb : b = b') : CodesStat l a' b' := ha ▸ hb ▸ h
+
+/-- Prop-valued form of the path shape test (`pathOKAux` of Props/C01). -/
+inductive PathShape (lenB : Nat) : Int → Bool → List Int → Prop
+  | nilGap {last : Int} : last = (lenB : Int) → PathShape lenB last true []
+  | nilRes {last : Int} : last ≤ (lenB : Int) → PathShape lenB last false []
+  | gap {last : Int} {pg : Bool} {ps : List Int} :
+      PathShape lenB last true ps → PathShape lenB last pg (-1 :: ps)
+  | afterGap {last p : Int} {ps : List Int} : p ≠ -1 → p = last + 1 → p ≤ (lenB : Int) →
+      PathShape lenB p false ps → PathShape lenB last true (p :: ps)
+  | afterRes {last p : Int} {ps : List Int} : p ≠ -1 → p > last → p ≤ (lenB : Int) →
+      PathShape lenB p false ps → PathShape lenB last false (p :: ps)
+
+theorem expandRest_stat (lenB : Nat) {last : Int} {pg : Bool} {ps : List Int}
+    (h : PathShape lenB last pg ps) :
+    0 ≤ last → ∀ b : Int, (pg = true → b = -1) → (pg = false → b = last) →
+      CodesStat (expandRest b ps ++ expandTail lenB (ps.getLast?.getD b)) ps.length
+        ((lenB : Int) - last).toNat ∧ last ≤ (lenB : Int) ∧
+      ((pg = true ∨ ps ≠ []) → last < (lenB : Int) →
+        0 ∈ expandRest b ps ++ expandTail lenB (ps.getLast?.getD b)) := by
+  induction h with
+  | @nilGap last hl =>
+    intro h0 b hb _
+    have hb' := hb rfl
+    subst hb'
+    refine ⟨?_, by omega, ?_⟩
+    · simp only [expandRest, List.getLast?_nil, Option.getD_none, List.nil_append, List.length_nil]
+      unfold expandTail
+      rw [if_neg (fun h => h.2 rfl)]
+      exact CodesStat.nil.cast rfl (by omega)
+    · intro _ hlt; omega
+  | @nilRes last hl =>
+    intro h0 b _ hb
+    have hb' := hb rfl
+    subst hb'
+    refine ⟨?_, hl, ?_⟩
+    · simp only [expandRest, List.getLast?_nil, Option.getD_none, List.nil_append,
+        List.length_nil]
+      unfold expandTail
+      by_cases hlt : b < (lenB : Int)
+      · rw [if_pos ⟨hlt, by omega⟩]
+        exact CodesStat.ones _
+      · rw [if_neg (fun h => hlt h.1)]
+        exact CodesStat.nil.cast rfl (by omega)
+    · intro hor; simp at hor
+  | @gap last pg ps _ ih =>
+    intro h0 b _ _
+    obtain ⟨st, hle, hz⟩ := ih h0 (-1) (fun _ => rfl) (fun h => by cases h)
+    have e : expandRest b (-1 :: ps) ++ expandTail lenB ((-1 :: ps).getLast?.getD b)
+        = [2] ++ (expandRest (-1) ps ++ expandTail lenB (ps.getLast?.getD (-1))) := by
+      simp [expandRest, expandEntry, List.getLast?_cons]
+    rw [e]
+    refine ⟨(CodesStat.two.append st).cast (by simp; omega) (by omega), hle, ?_⟩
+    intro _ hlt
+    exact List.mem_append_right _ (hz (Or.inl rfl) hlt)
+  | @afterGap last p ps hp1 hp hpl _ ih =>
+    intro h0 b hb _
+    have hb' := hb rfl
+    subst hb'
+    obtain ⟨st, hle, _⟩ := ih (by omega) p (fun h => by cases h) (fun _ => rfl)
+    have e : expandRest (-1) (p :: ps) ++ expandTail lenB ((p :: ps).getLast?.getD (-1))
+        = [0] ++ (expandRest p ps ++ expandTail lenB (ps.getLast?.getD p)) := by
+      simp [expandRest, expandEntry, List.getLast?_cons, hp1]
+    rw [e]
+    refine ⟨(CodesStat.zero.append st).cast (by simp; omega) (by omega), by omega, ?_⟩
+    intro _ _
+    exact List.mem_append_left _ (by simp)
+  | @afterRes last p ps hp1 hp hpl _ ih =>
+    intro h0 b _ hb
+    have hb' := hb rfl
+    subst hb'
+    obtain ⟨st, hle, _⟩ := ih (by omega) p (fun h => by cases h) (fun _ => rfl)
+    by_cases hadj : p - 1 = b
+    · have e : expandRest b (p :: ps) ++ expandTail lenB ((p :: ps).getLast?.getD b)
+          = [0] ++ (expandRest p ps ++ expandTail lenB (ps.getLast?.getD p)) := by
+        simp [expandRest, expandEntry, List.getLast?_cons, hp1, hadj]
+      rw [e]
+      refine ⟨(CodesStat.zero.append st).cast (by simp; omega) (by omega), by omega, ?_⟩
+      intro _ _
+      exact List.mem_append_left _ (by simp)
+    · have hb1 : b ≠ -1 := by omega
+      have e : expandRest b (p :: ps) ++ expandTail lenB ((p :: ps).getLast?.getD b)
+          = (List.replicate (p - b - 1).toNat 1 ++ [0]) ++
+              (expandRest p ps ++ expandTail lenB (ps.getLast?.getD p)) := by
+        simp [expandRest, expandEntry, List.getLast?_cons, hp1, hadj, hb1]
+      rw [e]
+      refine ⟨(((CodesStat.ones _).append CodesStat.zero).append st).cast (by simp; omega) (by omega),
+        by omega, ?_⟩
+      intro _ _
+      exact List.mem_append_left _ (by simp)
+
+theorem expandFirst_eq (p : Int) : expandFirst p = expandEntry 0 p := by
+  unfold expandFirst expandEntry
+  by_cases h1 : p = -1
+  · simp [h1]
+  · by_cases h2 : p = 1
+    · simp [h2]
+    · have : p - 1 ≠ 0 := by omega
+      simp [h1, h2, this]
+
+theorem expandCore_eq (lenB : Nat) (path : List Int) (hne : path ≠ []) :
+    expandCore lenB path = expandRest 0 path ++ expandTail lenB (path.getLast?.getD 0) := by
+  cases path with
+  | nil => exact absurd rfl hne
+  | cons p ps => simp [expandCore, expandRest, expandFirst_eq, List.getLast?_cons]
+
+theorem expandPath_valid_of_shape (lenB : Nat) (path : List Int) (hb : 1 ≤ lenB) (hne : path ≠ [])
+    (h : PathShape lenB 0 false path) :
+    ∃ codes, expandPath lenB path = some codes ∧
+      ValidCols (codes.map Col.ofCode) path.length lenB := by
+  obtain ⟨st, _, hz⟩ := expandRest_stat lenB h (Int.le_refl 0) 0 (fun h => by cases h) (fun _ => rfl)
+  rw [← expandCore_eq lenB path hne] at st hz
+  have h0 : 0 ∈ expandCore lenB path := hz (Or.inr hne) (by omega)
+  have hall : (expandCore lenB path).all (· ≠ 0) = false := by
+    rw [List.all_eq_false]
+    exact ⟨0, h0, by simp⟩
+  refine ⟨markSuffix (markPrefix (expandCore lenB path)), ?_, ?_⟩
+  · simp only [expandPath, hall]; rfl
+  · rw [map_ofCode_markSuffix, map_ofCode_markPrefix]
+    exact st.cast rfl (by omega)
 
 end Kalign
